@@ -482,8 +482,36 @@ def row_wise_generators_rule(program, res, rule="C26-S1"):
                          f"input row for the project, Pandas raises at evaluation", "data_algebra/expr_rep.py", 0)
 
 
+def partition_one_is_windowed_rule(program, res, rule="C26-S1"):
+    """`partition_by=1` (the whole table as one partition) makes an extend windowed whatever its functions are; ExtendNode.__init__ normalises the 1 to `[]`,
+    so the fact has to be recorded where the number is still visible — in the branch that normalises it, or by a test evaluated before that rebinding.  A
+    windowed-ness computed from the normalised list skips every window rule for `extend({'z': 'x + 1'}, partition_by=1)`"""
+    ini = program.cls("view_representations", "ExtendNode").methods.get("__init__")
+    if ini is None:
+        raise AnalysisError("anchor vanished: ExtendNode.__init__")
+    res.analysed(ini)
+    branch = [t for t in ast.walk(ini.node) if isinstance(t, ast.If) and "partition_by" in unparse(t.test) and ("Number" in unparse(t.test) or "== 1" in unparse(t.test))
+              and any(isinstance(a_, ast.Assign) and unparse(a_.targets[0]) == "partition_by" for a_ in ast.walk(t))]
+    if not branch:
+        res.abstain(rule, "ExtendNode.__init__", "no branch that normalises a numeric partition_by")
+        return
+    b0 = branch[0]
+    flagged = [a_ for a_ in ast.walk(b0) if isinstance(a_, ast.Assign) and isinstance(a_.targets[0], ast.Name) and "window" in a_.targets[0].id
+               and isinstance(a_.value, ast.Constant) and a_.value.value is True]
+    early = [a_ for a_ in ast.walk(ini.node) if isinstance(a_, ast.Assign) and isinstance(a_.targets[0], ast.Name) and "window" in a_.targets[0].id
+             and a_.lineno < b0.lineno and any(isinstance(x, ast.Name) and x.id == "partition_by" for x in ast.walk(a_.value))]
+    if flagged or early:
+        res.ok(rule, "ExtendNode.__init__ records partition_by=1 as a windowed situation before the 1 is normalised away")
+    else:
+        res.fail_at(rule, ini, "partition-by-1-not-windowed",
+                    "ExtendNode.__init__ turns partition_by=1 into [] and decides the windowed situation afterwards, from the list: extend({'z': 'x + 1'}, partition_by=1) and "
+                    "{'z': 'x.abs()'} are no longer windowed, so none of the window rules (aggregating function required, simple arguments, no contradicting function) is applied "
+                    "and the printed step loses its partition_by=1", b0)
+
+
 def windowed_classification_rules(program, res, rule="C26-S1"):
     """what decides that an extend is 'windowed' (and therefore subject to the window rules, and emitted with OVER in SQL)"""
+    partition_one_is_windowed_rule(program, res, rule=rule)
     er = program.module("expr_rep")
     iw = er.functions.get("implies_windowed")
     if iw is None:
